@@ -561,6 +561,15 @@ class Facts:
                 "+".join(frags), len(r), [f.path for f in r][:6]))
         return r[0]
 
+    def tracked_body(self, *frags, name):
+        """User body of a `#[salsa::tracked] fn name`: salsa moves it into
+        `<.._::name_Configuration_ as salsa::function::Configuration>::execute::inner_`."""
+        key = "::%s_Configuration_ as salsa::function::Configuration>::execute::inner_" % name
+        r = [f for p, f in self.fns.items() if p.endswith(key) and all(x in p for x in frags)]
+        if len(r) != 1:
+            raise AnchorError("tracked fn %s resolves to %d bodies" % (name, len(r)))
+        return r[0]
+
     def closures_of(self, fn):
         """Closures (transitively) defined inside fn."""
         if self._closures is None:
